@@ -386,3 +386,33 @@ Print Assumptions c06_backoff_ok_every_trace.
 Print Assumptions c06_backoff_poll.
 Print Assumptions c06_send_tx_queue_rto_counter.
 Print Assumptions c06_incoming_path_rto_mode.
+
+(* ---- c06_no_resend_acked ("a segment the peer has acknowledged, cumulatively or selectively, is never
+   retransmitted"): every ST_DATA of a poll -- WHATEVER the poll's result -- names, in the table as it was
+   before the poll, nothing or a segment not yet delivered.  Proved for the polls the transport cannot answer
+   with EMSGSIZE, with the tables before and after the poll within the wrap tolerance (the guard of
+   c06_no_resend_acked_t / _g, Conn/C06_Pred2.v).  DM t0 t: a delivered segment of t0 is either dropped from
+   the front of t or still in t, delivered, at the shifted index. *)
+Theorem c06_delivered_stays_delivered : forall (CC : Type) (cci : cc_iface CC) (s s' : vsock CC) (r : poll_result),
+  LB 0 s -> EF s -> poll cci s = (s', r) ->
+  match r with
+  | PollPanic => v_out s' = []
+  | _ => NW s' /\ OUT s' /\ DM (v_segs s) (v_segs s')
+  end.
+Proof. exact @poll_OUT_DM_strict_all. Qed.
+
+Theorem c06_no_resend_acked_guarded_step : forall (CC : Type) (cci : cc_iface CC) (cfg : vconfig)
+    (s : vsock CC) (sc : list send_outcome),
+  LB 0 s -> v_emsg_limit s = None -> script_legit sc = true ->
+  c06_no_resend_acked_t cfg (VSock_Lemmas.fstep_of cci s (VoPoll sc)) = true.
+Proof. exact @c06_no_resend_acked_t_poll. Qed.
+
+Theorem c06_no_resend_acked_g_every_trace : forall (CC : Type) (cci : cc_iface CC) (cfg : vconfig)
+    (mk : Z -> Z -> CC) (c : vconfig) (s0 : vsock CC) (ops : list vop),
+  vconfig_ok c = true -> vsock_new cci mk c = Some s0 ->
+  c06_no_resend_acked_g cfg (ftrace cci s0 ops) = true.
+Proof. exact @c06_no_resend_acked_g_trace. Qed.
+
+Print Assumptions c06_delivered_stays_delivered.
+Print Assumptions c06_no_resend_acked_guarded_step.
+Print Assumptions c06_no_resend_acked_g_every_trace.
